@@ -8,8 +8,8 @@
      leak <nsecrets> <secret>.. <ch>:<text>..  -> the emissions in which a secret shows (spec monitor)
      job <links> <mask> <cwd> <cmd> <debug> <tout> <retry> <wrapmethod> <wrapname> <job> <natt> (<beh> <out> <err>)..
                                                -> emissions of job_emissions, "<ch>:<text>" each
-         links: code | repaired | two letters among c(ause) x(context) n(one) for timeout, oserr
-         beh:   E<int> | T | O<ty>:<msg>
+         links: code | repaired | c(ause)/x(context)/n(one) for timeout, for oserr, then g(uarded)/u(nguarded) clean-up
+         beh:   E<int> | T | O<ty>:<msg> | U<ty>:<msg> (timeout whose clean-up raises)
      gh <prints|code> <app> <pwd> <jwt> <tok> <base> <inst> <accept> <elapsed> <method> <url> <ntok> <resp>.. <ncall> <resp>..
          resp:  R<status>:<reason> | C<ty>:<msg>
    channels: LD LI LE log record, LX LOG.exception message, CF/CO foreign/own chain header, XM str(err),
@@ -35,13 +35,14 @@ let read_em w = let (c, t) = split2 w in (read_channel c, cs t)
 let link_of = function 'c' -> LinkCause | 'x' -> LinkContext | 'n' -> LinkNone | _ -> failwith "link"
 let links_of = function
   | "code" -> code_links | "repaired" -> repaired_links
-  | w when String.length w = 2 -> { l_timeout = link_of w.[0]; l_oserr = link_of w.[1] }
+  | w when String.length w = 3 -> { l_timeout = link_of w.[0]; l_oserr = link_of w.[1]; l_guarded = (w.[2] = 'g') }
   | _ -> failwith "links"
 let tl1 w = String.sub w 1 (String.length w - 1)
 let beh_of w = match w.[0] with
   | 'E' -> Exit (z_of_int (int_of_string (tl1 w)))
   | 'T' -> Timeout
   | 'O' -> let (a, b) = split2 (tl1 w) in OsErr (cs a, cs b)
+  | 'U' -> let (a, b) = split2 (tl1 w) in TimeoutErr (cs a, cs b)
   | _ -> failwith "beh"
 let resp_of w = match w.[0] with
   | 'R' -> let (a, b) = split2 (tl1 w) in Resp (n_of_int (int_of_string a), cs b)
